@@ -8,7 +8,6 @@ for f in sorted(glob.glob(os.path.join(HERE, "C*.claim.json"))):
     CLAIMS[os.path.basename(f).split(".")[0]] = json.load(open(f))
 
 NOT_APPLICABLE = {
- "C15": "Argon2 byte-equality is a memory-hard numeric function with no state machine or decision structure for a TLA+ model to add to; an executable TLA+ transcription is impractical (>=10^6 limb ops per evaluation). See DESIGN.md §8 C15.",
  "C45": "Totality over every byte string is a fuzzing property; a TLA+ grammar model cannot speak for inputs outside the grammar. Grammar-derived inputs are exercised under C44/C46 as exploration only. See DESIGN.md §8 C45.",
 }
 NOT_BUILT_REASON = "check not built yet in this session (planned in DESIGN.md §8); not claimed until its check exists and is quiet on the unchanged tree"
